@@ -50,6 +50,16 @@ type Program struct {
 	// index/slice expressions whose bounds were proven by the case-partitioned evaluation of
 	// the string-cutting helpers (strcut.go)
 	ProvenSafe map[ast.Node]bool
+
+	inl *inlineCtx
+}
+
+// inliner: the demand-driven helper expansion of this package (inlineview.go).
+func (p *Program) inliner() *inlineCtx {
+	if p.inl == nil {
+		p.inl = newInlineCtx(p.Pkg.TypesInfo, p.Pkg.Types, p.Pkg.Syntax)
+	}
+	return p.inl
 }
 
 type marker struct {
